@@ -1,6 +1,7 @@
 package c03
 
 import (
+	"fmt"
 	"strconv"
 	"strings"
 
@@ -23,6 +24,67 @@ func pathStr(p []int) string {
 		s[i] = strconv.Itoa(x)
 	}
 	return strings.Join(s, ".")
+}
+
+// rawGraph prints the pointer graph reachable from Root() through Neigh() WITHOUT judging it: the
+// nodes in breadth-first discovery order (root = 0), and for every slot i of a node the index of
+// neigh[i], an index for the branch object br[i], and the indexes of br[i].Left() / br[i].Right()
+// (-1 = nil, -2 = a node not reached through Neigh(), "x" = len(neigh) != len(br)).  The Lean Spec
+// (`graphProblems`) decides whether this is a tree with symmetric adjacency oriented away from the root.
+func rawGraph(t *tree.Tree) string {
+	if t == nil || t.Root() == nil {
+		return "nil"
+	}
+	idx := map[*tree.Node]int{t.Root(): 0}
+	order := []*tree.Node{t.Root()}
+	eidx := map[*tree.Edge]int{}
+	for q := 0; q < len(order) && len(order) < 100000; q++ {
+		for _, nb := range order[q].Neigh() {
+			if nb == nil {
+				continue
+			}
+			if _, ok := idx[nb]; !ok {
+				idx[nb] = len(order)
+				order = append(order, nb)
+			}
+		}
+	}
+	ni := func(n *tree.Node) int {
+		if n == nil {
+			return -1
+		}
+		if i, ok := idx[n]; ok {
+			return i
+		}
+		return -2
+	}
+	var b strings.Builder
+	for _, n := range order {
+		neigh, br := n.Neigh(), n.Edges()
+		if len(neigh) != len(br) {
+			b.WriteString("x;")
+			continue
+		}
+		for i, nb := range neigh {
+			e := br[i]
+			ei := -1
+			if e != nil {
+				if j, ok := eidx[e]; ok {
+					ei = j
+				} else {
+					ei = len(eidx)
+					eidx[e] = ei
+				}
+			}
+			l, r := -1, -1
+			if e != nil {
+				l, r = ni(e.Left()), ni(e.Right())
+			}
+			fmt.Fprintf(&b, "%d/%d/%d/%d,", ni(nb), ei, l, r)
+		}
+		b.WriteByte(';')
+	}
+	return b.String()
 }
 
 // observe must only be called on a heap that core.Alpha accepted (the
